@@ -49,6 +49,17 @@ def main():
             open(os.path.join(decoy.name, fn), "w").write(txt)
         os.chdir(decoy.name)
     out = []
+    if spec.get("writeset"):
+        # the module/class-level state this fresh interpreter's runs write: nothing the checking process did earlier (reading a
+        # parameter while regenerating tables, say) can have filled a cache first
+        from harness.props import c03
+        for call in spec["calls"]:
+            before = c03.snapshot()
+            observe.run(call["pdb"], call["args"], want_text=False)
+            after = c03.snapshot()
+            out.append(sorted(k for k in after if before.get(k) != after[k]))
+        print(json.dumps(out))
+        return
     for call in spec["calls"]:
         if call.get("mode") == "main":
             # one invocation of the command-line entry point with several inputs: the .pka text of every input (date line removed)
